@@ -2,8 +2,9 @@
 (* spec -> code: concrete cleaning scenarios over one small world with overlapping distfile names
    (foo / foo-bar, a patch shared by several packages, stale files of versions no longer anywhere):
    which packages are in the repository / installed, every combination of the three exclusion
-   flags, a target, an exclusion pattern, the file filters.  Text the code must parse (names,
-   versions, patterns) is exported as character sequences.                                      *)
+   flags, a target, exclusion patterns given on the command line (-x), in an exclusion file (-X)
+   or both at once, the file filters.  Text the code must parse (names, versions, patterns) is
+   exported as character sequences.                                                             *)
 EXTENDS Pclean, TLC, Json, IOUtils, SequencesExt
 CONSTANT Size
 foo == <<"f", "o", "o">>
@@ -23,14 +24,21 @@ FL(n, s, m) == [name |-> n, size |-> s, mrel |-> m]
 Files == <<FL("foo-0.tar.gz", 100, 1), FL("foo-0.5.tar.gz", 300, 1), FL("foo-1.tar.gz", 100, 3), FL("foo-2.tar.gz", 100, 1),
            FL("foo-bar-0.tar.gz", 100, 1), FL("foo-bar-1.tar.gz", 100, 1), FL("baz-3.tar.xz", 300, 3), FL("qux-1.zip", 100, 1),
            FL("shared.patch", 100, 1), FL("unrelated.bin", 100, 1), FL("baz-2.tar.xz", 100, 1)>>
-Repos == IF Size = 1 THEN {<<P1, P2, P3, P4>>, <<P1, P3>>, <<P3, P4>>, <<>>}
-         ELSE {<<P1, P2, P3, P4>>, <<P1, P3>>, <<P3, P4>>, <<>>, <<P1>>, <<P2, P4>>, <<P1, P2, P3>>, <<P4>>}
-Installs == IF Size = 1 THEN {<<>>, <<I1, I2>>} ELSE {<<>>, <<I1, I2>>, <<I1>>, <<I2>>}
-Targets == {<<>>, <<foo>>, <<<<"a", "/">> \o foo>>, <<baz>>, <<<<"a", "/", "*">>>>, <<foo \o <<"*">>>>, <<<<"b", "/">> \o baz, foobar>>}
-Excludes == {<<>>, <<<<"a", "/">> \o foobar>>, <<<<"b", "/", "*">>>>, <<foo>>}
+Repos == IF Size = 1 THEN {<<P1, P2, P3, P4>>, <<P1, P3>>}
+         ELSE {<<P1, P2, P3, P4>>, <<P1, P3>>, <<P3, P4>>, <<>>}
+Installs == IF Size = 1 THEN {<<I1, I2>>} ELSE {<<>>, <<I1, I2>>}
+Targets == {<<>>, <<foo>>, <<<<"a", "/">> \o foo>>, <<<<"b", "/">> \o baz, foobar>>}
+           \cup (IF Size = 1 THEN {} ELSE {<<baz>>, <<<<"a", "/", "*">>>>, <<foo \o <<"*">>>>})
+\* exclusion patterns and the way they reach the tool: <<command line (-x), exclusion file (-X)>>
+XA == <<"a", "/">> \o foobar
+XB == <<"b", "/", "*">>
+XF == foo
+XPairs == {<<<<>>, <<>>>>}
+          \cup {<<<<x>>, <<>>>> : x \in {XA, XB, XF}} \cup {<<<<>>, <<x>>>> : x \in {XA, XB, XF}}
+          \cup {<<<<XA>>, <<XB>>>>, <<<<XB>>, <<XF>>>>, <<<<XF>>, <<XA>>>>, <<<<XA, XF>>, <<XB>>>>}
 Filters == IF Size = 1 THEN {<<FALSE, FALSE>>, <<TRUE, TRUE>>} ELSE BOOLEAN \X BOOLEAN
-Cases == {[files |-> Files, repo |-> r, installed |-> ins, targets |-> t, excludes |-> x,
+Cases == {[files |-> Files, repo |-> r, installed |-> ins, targets |-> t, excludes |-> x[1], xfile |-> x[2],
            opts |-> [exclInstalled |-> i, exclExists |-> e, exclFetch |-> f, useM |-> fl[1], useS |-> fl[2], T |-> 2, S |-> 200]] :
-          r \in Repos, ins \in Installs, t \in Targets, x \in Excludes, i \in BOOLEAN, e \in BOOLEAN, f \in BOOLEAN, fl \in Filters}
+          r \in Repos, ins \in Installs, t \in Targets, x \in XPairs, i \in BOOLEAN, e \in BOOLEAN, f \in BOOLEAN, fl \in Filters}
 ASSUME ndJsonSerialize(IOEnv.OUT, SetToSeq(Cases))
 =========================================================================
